@@ -95,5 +95,6 @@ uint32_t F_strcmp(char* a, char* b) { uint64_t i = 0; for (;; i++) { unsigned ch
 void F___assert_fail(char* a, char* b, uint32_t c, char* d) { __CPROVER_assert(0, "VERIF: assert() in code under test failed"); __CPROVER_assume(0); }
 void __VERIF_memcpy(char* d, char* s, uint64_t n) { for (uint64_t i = 0; i < n; i++) d[i] = s[i]; }
 void __VERIF_memmove(char* d, char* s, uint64_t n) { if (d <= s || d >= s + n) { for (uint64_t i = 0; i < n; i++) d[i] = s[i]; } else { for (uint64_t i = n; i > 0; i--) d[i - 1] = s[i - 1]; } }
+int __verif_tid;
 /* single-threaded symbolic execution: libstdc++'s refcount fast path */
 char g___libc_single_threaded_rt = 1;
